@@ -1038,6 +1038,8 @@ def _operator(disc, model, msh):
 
 def implicit_clause(vals, integrator, n, neq, clause=None):
     import flowdyn.integration as ti
+    if clause == "local-dt":
+        return _implicit_system_clause(integrator, dtlocal=True)
     msh, model, disc, f = _conv_setup()
     Aop = _operator(disc, model, msh)
     s = getattr(ti, integrator)(msh, disc)
@@ -1080,7 +1082,7 @@ def implicit_clause(vals, integrator, n, neq, clause=None):
     return ok
 
 
-def _implicit_system_clause(integrator):
+def _implicit_system_clause(integrator, dtlocal=False):
     """systems (neq > 1): three steps of an implicit integrator on 1-D Euler (hlle, extrapol1, periodic, smooth subsonic state)
     against a dense solve of the linearised backward-Euler / Crank-Nicolson / BDF2 system with the replay's own central-difference
     Jacobian and its own unknown ordering; tolerance 1e-4 |dQ| (linearisation and finite-difference errors are ~1e-7)"""
@@ -1095,6 +1097,10 @@ def _implicit_system_clause(integrator):
     f = field.fdata(model, msh, model.prim2cons(P))
     s = getattr(ti, integrator)(msh, disc)
     dt = 0.02
+    if dtlocal:
+        # one time step per cell (directives dtlocal): the same dt_i on the three equations of cell i (flat layout here: k*n+i)
+        dt = 0.02 * (1 + 0.5 * np.arange(n) / n)
+    dtflat = np.tile(np.atleast_1d(dt), 3) if dtlocal else dt
 
     def R(Qflat):
         Q = [Qflat[k * n:(k + 1) * n].copy() for k in range(3)]
@@ -1116,7 +1122,10 @@ def _implicit_system_clause(integrator):
     for k in range(1, 4):
         q = flat(f)
         Jm, r = J(q), R(q)
-        if integrator in ("implicit", "backwardeuler"):
+        if dtlocal:
+            Dinv = np.diag(1.0 / dtflat)
+            dq = np.linalg.solve(Dinv - (1.0 if integrator in ("implicit", "backwardeuler") else 0.5) * Jm, r)
+        elif integrator in ("implicit", "backwardeuler"):
             dq = np.linalg.solve(I / dt - Jm, r)
         elif integrator == "gear" and qprev is not None:
             dq = np.linalg.solve(1.5 * I / dt - Jm, r + 0.5 * (q - qprev) / dt)
@@ -1126,7 +1135,7 @@ def _implicit_system_clause(integrator):
         got = flat(f) - q
         e = float(np.max(np.abs(got - dq)) / np.max(np.abs(dq)))
         if e > 1e-4:
-            show(integrator=integrator, model="euler1d", step=k, relative_deviation_of_the_increment=e)
+            show(integrator=integrator, model="euler1d", local_dt=bool(dtlocal), step=k, relative_deviation_of_the_increment=e)
             ok = False
             break
         qprev = q
